@@ -48,12 +48,12 @@ def make_book():
         # covers cells that are not stored; a named range on a sheet that may be ignored
         'Data!B3': put('Data', 3, 2, '=SUM(A1:A2)+SUM(rng)', 'f', 6),
         'My Sheet!B3': put('My Sheet', 3, 2, '=kq*2+SUM(qr)', 'f', 0),
-        'Data!B4': put('Data', 4, 2, '=SUM(wide)+COUNT(wide)', 'f', 0),
+        'Data!B4': put('Data', 4, 2, '=SUM(wide)+COUNT(wide)', 'f', 0), 'Data!D1': put('Data', 1, 4, 1, 'n'), 'Data!D2': put('Data', 2, 4, 2, 'n'),
         'Skip!C1': put('Skip', 1, 3, '=SUM(skr)', 'f', 0),
     }
     wb.defined_names['kq'] = DefinedName('kq', attr_text="'My Sheet'!$B$1")
     wb.defined_names['qr'] = DefinedName('qr', attr_text="'My Sheet'!$B$1:$B$2")
-    wb.defined_names['wide'] = DefinedName('wide', attr_text='Data!$A$1:$A$6')
+    wb.defined_names['wide'] = DefinedName('wide', attr_text='Data!$D$1:$D$6')
     wb.defined_names['skr'] = DefinedName('skr', attr_text='Skip!$A$1:$B$1')
     wb.defined_names['total'] = DefinedName('total', attr_text='Data!$B$1')
     wb.defined_names['rng'] = DefinedName('rng', attr_text='Data!$A$1:$A$2')
@@ -74,85 +74,107 @@ def build(tier, seed):
         mc.model.build_code()
         return mc.model
 
-    def h(a: int, b: int, t: CV, cached: int, cached2: CV, k: int, ig_skip: bool, ig_my: bool) -> bool:
+    def setup(a, b, t, cached, cached2, k, ig_skip, ig_my):
         CELLS['Data!A1']._value = a
         CELLS['Data!A2']._value = b
+        CELLS['Data!D1']._value = a
+        CELLS['Data!D2']._value = b
         CELLS['Data!A3']._value = t
         CELLS['Data!A3'].data_type = 'b' if isinstance(t, bool) else ('n' if isinstance(t, int) else 's')
         CELLS['Data!B1'].cvalue = cached
         CELLS['My Sheet!A1'].cvalue = cached2
         CELLS['My Sheet!B1']._value = k
-        ignore = (['Skip'] if ig_skip else []) + (['My Sheet'] if ig_my else [])
-        m = load(ignore)
+        CELLS['Skip2!A1']._value = cached
+        return (['Skip'] if ig_skip else []) + (['My Sheet'] if ig_my else [])
+
+    def h_cells(a, b, t, cached, cached2, k, ig_skip, ig_my):
+        """the model has exactly the stored cells of the sheets that are not ignored, with constants (typed), formula texts, cached results; names bound"""
+        m = load(setup(a, b, t, cached, cached2, k, ig_skip, ig_my))
         expected = [x for x in CELLS if not (x.startswith('Skip!') and ig_skip) and not (x.startswith('My Sheet!') and ig_my)]
         if sorted(m.cells.keys()) != sorted(expected):
             return False
-        # constants with their types; formula texts; cached results readable before any evaluation
         t_got = m.cells['Data!A3'].value
         if not (m.cells['Data!A1'].value == a and m.cells['Data!A2'].value == b and t_got == t and isinstance(t_got, bool) == isinstance(t, bool)):
             return False
         if not (m.cells['Data!B1'].formula.formula == '=A1+A2' and m.get_cell_value('Data!B1') == cached and m.cells['Data!A1'].formula is None):
             return False
+        if not ig_my:
+            c2 = m.get_cell_value('My Sheet!A1')
+            if not (c2 == cached2 and isinstance(c2, bool) == isinstance(cached2, bool) and m.cells['My Sheet!A1'].formula.formula == '=Data!B1*2' and m.cells['My Sheet!B1'].value == k):
+                return False
+            if 'kq' not in m.defined_names or 'qr' not in m.defined_names:
+                return False
+        if not ig_skip:
+            if not (m.cells['Skip!A1'].value == 99 and m.get_cell_value('Skip!B1') == 99):
+                return False
+        for nm in ('total', 'rng', 'inp', 'rate2', 'wide'):
+            if nm not in m.defined_names:
+                return False
+        return 'Data!C1' in m.cells and m.cells['Skip2!A1'].value == cached
+
+    def h_eval(a, b, cached, k, ig_skip, ig_my):
+        """evaluating the loaded model: formulas, cross-sheet references, names for cells and ranges (also written out directly, over unstored cells, on the quoted sheet)"""
+        m = load(setup(a, b, 'x', cached, 6, k, ig_skip, ig_my))
         ev = Evaluator(m)
         if not (num_is(ev.evaluate('Data!B1'), a + b) and num_is(ev.evaluate('Data!B2'), a + b) and num_is(ev.evaluate('total'), a + b)):
             return False
-        # a named range whose text also occurs as a direct range; a named range covering cells that are not stored (A4:A6)
         if not num_is(ev.evaluate('Data!B3'), 2 * (a + b)):
             return False
-        t_num = isinstance(t, int) and not isinstance(t, bool)
-        r4 = ev.evaluate('Data!B4')
-        if not (num_is(r4, a + b + (t if t_num else 0) + (3 if t_num else 2)) or (t is True and num_is(r4, a + b + 3))):
-            return False          # (whether SUM counts a TRUE found in a range is not part of this property: both accepted)
+        if not num_is(ev.evaluate('Data!B4'), a + b + 2):
+            return False
         if not ig_my:
-            c2 = m.get_cell_value('My Sheet!A1')
-            if not (c2 == cached2 and m.cells['My Sheet!A1'].formula.formula == '=Data!B1*2'):
-                return False
             if not (num_is(ev.evaluate('My Sheet!A1'), 2 * (a + b)) and num_is(ev.evaluate('My Sheet!A2'), 2 * (a + b)) and num_is(ev.evaluate('My Sheet!B2'), k + 1)):
-                return False
-            # names bound to a cell / a range of the sheet whose name is quoted
-            if 'kq' not in m.defined_names or 'qr' not in m.defined_names:
                 return False
             if not (num_is(ev.evaluate('kq'), k) and num_is(ev.evaluate('My Sheet!B3'), 2 * k + k + k + 1)):
                 return False
         if not ig_skip:
-            if not (m.cells['Skip!A1'].value == 99 and num_is(ev.evaluate('Skip!B1'), 99) and num_is(ev.evaluate('Skip!C1'), 198)):
+            if not (num_is(ev.evaluate('Skip!B1'), 99) and num_is(ev.evaluate('Skip!C1'), 198)):
                 return False
         # the empty stored cell exists, its name is bound, a value set through the name reaches it
-        if 'Data!C1' not in m.cells or 'inp' not in m.defined_names:
-            return False
         if not num_is(ev.evaluate('Data!C2'), b):
             return False
         ev.set_cell_value('inp', k)
         if not (m.cells['Data!C1'].value == k and num_is(ev.evaluate('Data!C2'), 2 * k + b)):
             return False
         # Skip2 is never ignored (only 'Skip' is): its cells and its defined name are there
-        CELLS['Skip2!A1']._value = cached
-        m2 = load(ignore)
-        if 'rate2' not in m2.defined_names or not num_is(Evaluator(m2).evaluate('Skip2!B1'), 3 * cached) or not num_is(Evaluator(m2).evaluate('rate2'), cached):
-            return False
-        # a model built directly from the same contents evaluates alike
-        d = {'Data!A1': a, 'Data!A2': b, 'Data!A3': t if not isinstance(t, str) or t == '' or True else t, 'Data!B1': '=A1+A2', 'Data!B2': '=SUM($A$1:$A$2)'}
-        if isinstance(t, str) and (t == '' or t[0] == '='):
-            d.pop('Data!A3')
+        return num_is(ev.evaluate('Skip2!B1'), 3 * cached) and num_is(ev.evaluate('rate2'), cached)
+
+    def h_dict(a, b, k, ig_skip, ig_my):
+        """a model built directly from the same contents evaluates alike"""
+        m = load(setup(a, b, 'x', 3, 6, k, ig_skip, ig_my))
+        d = {'Data!A1': a, 'Data!A2': b, 'Data!A3': 'x', 'Data!B1': '=A1+A2', 'Data!B2': '=SUM($A$1:$A$2)'}
         if not ig_my:
             d.update({'My Sheet!A1': '=Data!B1*2', 'My Sheet!B1': k, 'My Sheet!B2': '=B1+1'})
         md = ModelCompiler().read_and_parse_dict(d, default_sheet='Data')
-        ed = Evaluator(md)
+        ed, el = Evaluator(md), Evaluator(m)
         for addr in ('Data!B1', 'Data!B2') + (() if ig_my else ('My Sheet!A1', 'My Sheet!B2')):
-            if not same(ed.evaluate(addr), Evaluator(m).evaluate(addr)):
+            if not same(ed.evaluate(addr), el.evaluate(addr)):
                 return False
         return True
     for ig_s in (False, True):
         for ig_m in (False, True):
             def mk(ig_s, ig_m):
-                def hh(a: int, b: int, t: CV, cached: int, cached2: CV, k: int) -> bool:
-                    return h(a, b, t, cached, cached2, k, ig_s, ig_m)
-                return hh
+                def hc(a: int, b: int, t: CV, cached: int, cached2: CV, k: int) -> bool:
+                    return h_cells(a, b, t, cached, cached2, k, ig_s, ig_m)
+
+                def he(a: int, b: int, cached: int, k: int) -> bool:
+                    return h_eval(a, b, cached, k, ig_s, ig_m)
+
+                def hd(a: int, b: int, k: int) -> bool:
+                    return h_dict(a, b, k, ig_s, ig_m)
+                return hc, he, hd
+            hc, he, hd = mk(ig_s, ig_m)
             label = 'ignore ' + ('+'.join([n for n, f in (('Skip', ig_s), ('My Sheet', ig_m)) if f]) or 'nothing')
-            obs.append(Ob(f'c11.adapter[workbook -> model, {label}]', mk(ig_s, ig_m),
+            book = ('4 sheets (Data, "My Sheet", Skip, Skip2 - never ignored, its name extends Skip), 21 stored cells incl. an empty stored cell that is the target of a defined name, names for a cell and a '
+                    'range of the quoted sheet, a named range also written out directly, a named range covering cells that are not stored, a named range on the ignorable sheet; ' + label)
+            obs.append(Ob(f'c11.adapter[cells, {label}]', hc,
                           pre=lambda a, b, t, cached, cached2, k: (not isinstance(t, str) or len(t) <= 2) and (not isinstance(cached2, str) or len(cached2) <= 2),
                           witness=[(1, 2, 'x', 3, 6, 5), (4, -4, True, 0, 'ab', 0), (0, 0, 7, 1, False, 1)], timeout=600, cost=60, family='c11.adapter',
-                          bounds='4 sheets (Data, "My Sheet", Skip, Skip2 - never ignored, its name extends Skip), 19 stored cells incl. an empty stored cell that is the target of a defined name, names for a cell and a range of the quoted sheet, a named range also written out directly, a named range covering cells that are not stored, a named range on the ignorable sheet: constants a, b, k (all ints), t over int / text(<=2) / bool, formulas with cached results (int; int/text/bool), '
-                                 f'defined names for a cell and a range; {label}',
+                          bounds=book + '; constants a, b, k (all ints), t over int / text(<=2) / bool, cached results (int; int/text/bool): exactly the stored cells of the kept sheets, typed constants, formula texts, cached results before evaluation, names bound',
                           show=lambda *a: f'a={a[0]} b={a[1]} t={a[2]!r} cached={a[3]} cached2={a[4]!r} k={a[5]}'))
+            obs.append(Ob(f'c11.adapter[evaluate, {label}]', he, witness=[(1, 2, 3, 5), (4, -4, 0, 0)], timeout=600, cost=60, family='c11.adapter',
+                          bounds=book + '; a, b, cached, k: all ints: every formula of the kept sheets and every defined name evaluates to its reference value; a value set through a name reaches the cell',
+                          show=lambda *a: f'a={a[0]} b={a[1]} cached={a[2]} k={a[3]}'))
+            obs.append(Ob(f'c11.adapter[same as dict model, {label}]', hd, witness=[(1, 2, 5), (4, -4, 0)], timeout=600, cost=30, family='c11.adapter',
+                          bounds=book + '; a, b, k: all ints: evaluates like a model built by read_and_parse_dict from the same contents', show=lambda *a: f'a={a[0]} b={a[1]} k={a[2]}'))
     return obs
